@@ -1,6 +1,7 @@
 import Driver.Common
 import GeosModel.Base.Env
 import GeosModel.Model.Index.STR
+import GeosModel.Model.Index.Quad
 /-! Driver for C15: replays an STRtree history on the model (`GeosModel.STR.Tree` over `Env`). -/
 namespace Driver.C15
 open GeosModel GeosModel.STR
@@ -66,6 +67,11 @@ partial def go (mode : String) (t : Tree Env It) (acc : List String) : List Stri
       go mode t' ((if ok then "r:1" else "r:0") :: acc) r'
     | _, _ => ("bad-op" :: acc).reverse
   | "T" :: r => go mode t (("t:" ++ showIds t.iterate) :: acc) r
+  | "J" :: r => let (t', res) := t.items cfg; go mode t' (("j:" ++ showIds res) :: acc) r
+  | "V" :: r =>
+    match parseEnv mode r with
+    | some (e, r') => let (t', res) := t.query cfg e; go mode t' (("v:" ++ showIds res) :: acc) r'
+    | none => ("bad-op" :: acc).reverse
   | "N" :: x :: y :: r =>
     match x.toInt?, y.toInt? with
     | some x, some y =>
@@ -86,11 +92,13 @@ partial def go (mode : String) (t : Tree Env It) (acc : List String) : List Stri
 
 def history (line : String) : String :=
   match Driver.tokens line with
-  | "H" :: cap :: mode :: ops =>
+  | "H" :: cap :: mode :: ops | "HX" :: cap :: mode :: ops =>
     match cap.toNat? with
     | some cap => Driver.joinWith " " (go mode (Tree.empty cap) [] ops)
     | none => "bad-line"
   | _ => "bad-line"
+
+def bit (b : Bool) : String := if b then "1" else "0"
 
 /-! #### the other indexes: check the reported result of every query against the brute-force filter -/
 
@@ -124,6 +132,13 @@ partial def otherGo (kind : String) (items : List OItem) : List String → Strin
           | it :: t => if it.id == id && it.live then { it with live := false } :: t else it :: kill t
         otherGo kind (if live then kill items else items) r
     | none => "bad-op"
+  | "A" :: res :: "Z" :: n :: r =>
+    -- the whole content (Quadtree::queryAll, size): exactly the live items
+    let got := (parseIds res).mergeSort (· ≤ ·)
+    let want := ((items.filter (·.live)).map (·.id)).mergeSort (· ≤ ·)
+    if got != want then s!"bad {kind} all got {got} want {want}"
+    else if n.toNat? != some want.length then s!"bad {kind} size {n} want {want.length}"
+    else otherGo kind items r
   | "Q" :: a :: b :: c :: d :: res :: r =>
     match a.toInt?, b.toInt?, c.toInt?, d.toInt? with
     | some a, some b, some c, some d =>
@@ -150,14 +165,55 @@ partial def otherGo (kind : String) (items : List OItem) : List String → Strin
     | _, _, _, _ => "bad-op"
   | _ => "bad-op"
 
+/-! #### quadtree (harness stream `quadnode`, lines `N f|r ops…`): the model of Model/Index/Quad.lean run on the same
+operations; results are compared in order (the traversal order is part of the model).  Ordinates are scaled by 4. -/
+
+def parseBox4 : List String → Option (Box × List String)
+  | a :: b :: c :: d :: r => do
+      let a ← a.toInt?; let b ← b.toInt?; let c ← c.toInt?; let d ← d.toInt?
+      some (⟨4 * a, 4 * b, 4 * c, 4 * d⟩, r)
+  | _ => none
+
+def showSeq (l : List Int) : String := if l.isEmpty then "-" else Driver.joinWith "," (l.map toString)
+
+open GeosModel.Quad in
+partial def quadGo (facade : Bool) (r : QT Int) (acc : List String) : List String → List String
+  | [] => acc.reverse
+  | "I" :: id :: rest =>
+    match id.toInt?, parseBox4 rest with
+    | some id, some (b, rest') =>
+      match (if facade then treeInsert 2 r b id else rootInsert 4 r b id) with
+      | some r' => quadGo facade r' ("i" :: acc) rest'
+      | none => ("i:ASSERT" :: acc).reverse
+    | _, _ => ("bad-op" :: acc).reverse
+  | "R" :: id :: rest =>
+    match id.toInt?, parseBox4 rest with
+    | some id, some (b, rest') =>
+      let p := if facade then treeRemove 2 r b id else r.remove (some b) id
+      quadGo facade p.1 ((if p.2 then "r:1" else "r:0") :: acc) rest'
+    | _, _ => ("bad-op" :: acc).reverse
+  | "Q" :: rest =>
+    match parseBox4 rest with
+    | some (b, rest') => quadGo facade r (("q:" ++ showSeq (r.query (some b))) :: acc) rest'
+    | none => ("bad-op" :: acc).reverse
+  | "V" :: rest =>
+    match parseBox4 rest with
+    | some (b, rest') => quadGo facade r (("v:" ++ showSeq (r.query (some b))) :: acc) rest'
+    | none => ("bad-op" :: acc).reverse
+  | "A" :: rest => quadGo facade r (("a:" ++ showSeq r.allItems) :: acc) rest
+  | "S" :: rest =>
+    let s := if facade then s!"s:{r.size}:{r.depth}"
+             else s!"s:{r.size}:{r.depth}:{bit r.hasChildren}{bit r.hasItems}{bit r.isPrunable}"
+    quadGo facade r (s :: acc) rest
+  | _ => ("bad-op" :: acc).reverse
+
 def other (line : String) : String :=
   match Driver.tokens line with
   | "X" :: kind :: _cap :: ops => otherGo kind [] ops
+  | "N" :: mode :: ops => Driver.joinWith " " (quadGo (mode == "f") GeosModel.Quad.emptyRoot [] ops)
   | _ => "bad-line"
 
 /-! #### envelope predicates and node flags (harness stream `envpreds`, lines `E mode envA envB x y`) -/
-
-def bit (b : Bool) : String := if b then "1" else "0"
 
 /-- where each ordinate of `r` comes from: `n` null, `=` both, `a`, `b`, `?` neither -/
 def origin (r a b : Env) : String :=
@@ -199,6 +255,12 @@ def envCase (mode : String) (rest : List String) : String :=
 def slices (line : String) : String :=
   match Driver.tokens line with
   | "E" :: mode :: rest => envCase mode rest
+  | "K" :: leaves =>
+    -- the leaf array in storage order, `id` live / `id*` removed: run the model of `Iterator` over it (in order)
+    let es : List (Entry Env Int) := leaves.filterMap fun s =>
+      if s.endsWith "*" then (s.dropRight 1).toInt?.map (fun i => ⟨none, i, true⟩) else s.toInt?.map (fun i => ⟨none, i, false⟩)
+    if es.length != leaves.length then "bad-line" else
+    showSeq (itemsLoop es.length (itBegin es))
   | ["S", cap, n] =>
     match cap.toNat?, n.toNat? with
     | some cap, some n =>
